@@ -1,6 +1,8 @@
 package main
 
 import (
+	"go/types"
+	"golang.org/x/tools/go/ssa"
 	"os/exec"
 	"encoding/json"
 	"flag"
@@ -28,6 +30,17 @@ type PropMeta struct {
 	Engines    []string `json:"engines"` // extra engines: callsites, ...
 	Packages   []string `json:"packages"`
 	Bounded    []BoundedCheck `json:"bounded"`
+	StoreSites []StoreSiteRule `json:"storesites"`
+}
+
+// StoreSiteRule is a mechanical side condition of an object-invariant argument: the named field of the named struct
+// type is written (assigned, or - for maps - inserted into) only inside the listed functions of its package.
+type StoreSiteRule struct {
+	Pkg      string   `json:"pkg"`   // package directory relative to the repo
+	Type     string   `json:"type"`  // struct type name
+	Field    string   `json:"field"` // field name
+	InsertIn []string `json:"insert_only_in"`
+	AssignIn []string `json:"assign_only_in"`
 }
 
 // BoundedCheck is a bounded stand-in (never counted as proved): a Go test kept under /verif that enumerates a
@@ -209,6 +222,9 @@ func runCheck(o *options, overlay map[string][]byte) (*checkResult, error) {
 	w.runFieldInvs(o, res)
 	w.runLemmas(o, res)
 	if o.only == "" {
+		for _, r := range meta.StoreSites {
+			res.bounded = append(res.bounded, w.checkStoreSites(o, r)...)
+		}
 		for _, b := range meta.Bounded {
 			res.bounded = append(res.bounded, runBounded(o, b, overlay))
 		}
@@ -815,4 +831,62 @@ func runBounded(o *options, b BoundedCheck, overlay map[string][]byte) *boundedR
 	}
 	r.OK = err == nil && r.Evaluations > 0 && strings.Contains(r.Output, "--- PASS: "+b.Run)
 	return r
+}
+
+
+// checkStoreSites scans the SSA of the package for writes to a struct field and reports every write outside the
+// allowed functions (a structural check on the real code; reported like a bounded result: not an SMT obligation).
+func (w *World) checkStoreSites(o *options, r StoreSiteRule) []*boundedResult {
+	name := fmt.Sprintf("storesites.%s.%s", r.Type, r.Field)
+	out := &boundedResult{BoundedCheck: BoundedCheck{Name: name, Pkg: r.Pkg, Bound: fmt.Sprintf("every SSA instruction of package %s: %s.%s is inserted into only in %v and assigned only in %v", r.Pkg, r.Type, r.Field, r.InsertIn, r.AssignIn)}, OK: true}
+	sp := w.ssaPkg(modulePath + "/" + r.Pkg)
+	if sp == nil {
+		out.OK = false
+		out.Output = "package not loaded"
+		return []*boundedResult{out}
+	}
+	isField := func(v ssa.Value) bool {
+		fa, ok := v.(*ssa.FieldAddr)
+		if !ok {
+			return false
+		}
+		pt, ok := fa.X.Type().Underlying().(*types.Pointer)
+		if !ok {
+			return false
+		}
+		n, ok := pt.Elem().(*types.Named)
+		if !ok || n.Obj().Name() != r.Type {
+			return false
+		}
+		return n.Underlying().(*types.Struct).Field(fa.Field).Name() == r.Field
+	}
+	allowed := func(list []string, f *ssa.Function) bool {
+		k := funcKey(f)
+		for _, a := range list {
+			if k == a || k == r.Type+"."+a || strings.HasPrefix(k, r.Type+"."+a+"$") {
+				return true
+			}
+		}
+		return false
+	}
+	for _, f := range allFunctions(sp) {
+		for _, b := range f.Blocks {
+			for _, in := range b.Instrs {
+				out.Evaluations++
+				switch in := in.(type) {
+				case *ssa.Store:
+					if isField(in.Addr) && !allowed(r.AssignIn, f) {
+						out.OK = false
+						out.Output += fmt.Sprintf("%s.%s assigned in %s at %s\n", r.Type, r.Field, funcKey(f), relPos(w.Fset.Position(in.Pos())))
+					}
+				case *ssa.MapUpdate:
+					if ld, ok := in.Map.(*ssa.UnOp); ok && isField(ld.X) && !allowed(r.InsertIn, f) {
+						out.OK = false
+						out.Output += fmt.Sprintf("%s.%s inserted into in %s at %s\n", r.Type, r.Field, funcKey(f), relPos(w.Fset.Position(in.Pos())))
+					}
+				}
+			}
+		}
+	}
+	return []*boundedResult{out}
 }
